@@ -92,6 +92,11 @@ type Cloud struct {
 	// families that are enabled).
 	NoV4, NoV6 bool
 
+	// Glitch: address -> number of following LoadNetworkInterface answers that omit it
+	// although it is still assigned (a metadata service that briefly serves an incomplete
+	// list).
+	Glitch map[netip.Addr]int
+
 	// Hook is called under the cloud lock when a call arrives, before any effect.
 	Hook func(cl *Cloud, c *Call)
 	// After is called under the cloud lock when a call has finished (effect applied).
@@ -309,6 +314,57 @@ func (cl *Cloud) Drift(eniIdx, idx int, v6 bool) (string, netip.Addr) {
 	delete(set, a)
 	cl.Removed[a] = true
 	return e.ID, a
+}
+
+// GlitchAddr makes the next `times` metadata answers omit one non-primary address of an
+// interface (selected like Drift) while it stays assigned. Returns interface and address.
+func (cl *Cloud) GlitchAddr(eniIdx, idx int, v6 bool, times int) (string, netip.Addr) {
+	cl.mu.Lock()
+	defer cl.mu.Unlock()
+	ids := cl.sortedENIsLocked()
+	if len(ids) == 0 {
+		return "", netip.Addr{}
+	}
+	e := cl.ENIs[ids[eniIdx%len(ids)]]
+	var cand []netip.Addr
+	set := e.V4
+	if v6 {
+		set = e.V6
+	}
+	for a := range set {
+		if a != e.Primary {
+			cand = append(cand, a)
+		}
+	}
+	if len(cand) == 0 {
+		return e.ID, netip.Addr{}
+	}
+	sort.Slice(cand, func(i, j int) bool { return cand[i].Less(cand[j]) })
+	a := cand[idx%len(cand)]
+	if cl.Glitch == nil {
+		cl.Glitch = map[netip.Addr]int{}
+	}
+	cl.Glitch[a] += times
+	return e.ID, a
+}
+
+func (cl *Cloud) glitchFilterLocked(in []netip.Addr) []netip.Addr {
+	if len(cl.Glitch) == 0 {
+		return in
+	}
+	var out []netip.Addr
+	for _, a := range in {
+		if n := cl.Glitch[a]; n > 0 {
+			if n == 1 {
+				delete(cl.Glitch, a)
+			} else {
+				cl.Glitch[a] = n - 1
+			}
+			continue
+		}
+		out = append(out, a)
+	}
+	return out
 }
 
 func (cl *Cloud) sortedENIsLocked() []string {
@@ -547,7 +603,7 @@ func (f *Factory) LoadNetworkInterface(mac string) ([]netip.Addr, []netip.Addr, 
 	for _, e := range cl.ENIs {
 		if e.MAC == mac {
 			c.ENI = e.ID
-			v4, v6 := sortedAddrs(e.V4), sortedAddrs(e.V6)
+			v4, v6 := cl.glitchFilterLocked(sortedAddrs(e.V4)), cl.glitchFilterLocked(sortedAddrs(e.V6))
 			if cl.NoV4 {
 				v4 = nil
 			}
